@@ -18,7 +18,7 @@ CLAUSES = {
     "C14": ("pending-entry-discarded-early", "no-retry-when-due", "retry-too-early", "unobserved-entry-not-expired",
             "completed-entry-not-expired", "unexpected-reobservation-request", "retry-budget-exceeded",
             "no-reobservation-request-when-due", "cleanup-blocked-on-full-request-queue", "retry-budget-refilled"),
-    "C17": ("cleanup-blocked-on-full-request-queue",),
+    "C17": ("cleanup-blocked-on-full-request-queue", "cleanup-stalled-on-full-request-queue"),
     "C03": ("invalid-observation-changed-state",),
 }
 
@@ -71,4 +71,5 @@ def run_processor(ctx, pid, note):
         "oracles supplied per line, computed by the harness with go-ethereum: Keccak digest of the VAA body, the node's own signature (deterministic RFC6979), ecrecover per (digest, signature)",
         "badger: read-your-writes for a single key; Go channels/maps semantics; protobuf marshalling of gossip messages",
     ]
-    os.remove(cases)
+    if not os.environ.get("VERIF_KEEP"):
+        os.remove(cases)
